@@ -93,6 +93,15 @@ def build_zoo(wntr, demand_model):
     wn.get_node("T1").add_leak(wn, area=2e-4, start_time=0)
     wn.get_node("T1")._leak_status = True
     wn.get_node("J5").add_leak(wn, area=1e-4, start_time=None)
+    # names colliding ACROSS element kinds: water-quality sources named like a link that touches their node (their usage records sit in
+    # the same per-node list `get_links_for_node` reads) and like the node itself; a pattern / curve named like a link / node
+    wn.add_source("Popen", "J1", "CONCEN", 1.0)
+    wn.add_source("Pback", "J2", "CONCEN", 1.0)
+    wn.add_source("Ptank", "T1", "CONCEN", 1.0)
+    wn.add_source("Pintank", "J4", "CONCEN", 1.0)
+    wn.add_source("J3", "J3", "CONCEN", 1.0)
+    wn.add_pattern("Pcv", [1.0, 2.0])
+    wn.add_curve("J4", "HEAD", [(0.01, 10.0)])
     return wn
 
 
@@ -409,6 +418,43 @@ def _strlist(l):
     return "[" + ", ".join(lean_str(x) for x in l) + "]"
 
 
+def read_links_for_node_filter():
+    """ast of WaterNetworkModel.get_links_for_node: the literal set of usage TYPE strings that count as links, how many iterations over the
+    node's usage records there are and how many of them test the record's type against that set"""
+    import ast
+    import inspect
+    import textwrap
+    from wntr.network.model import WaterNetworkModel
+
+    tree = ast.parse(textwrap.dedent(inspect.getsource(WaterNetworkModel.get_links_for_node)))
+    types, setname = [], None
+    for n in ast.walk(tree):
+        if isinstance(n, ast.Assign) and isinstance(n.value, ast.Set) and all(isinstance(e, ast.Constant) and isinstance(e.value, str) for e in n.value.elts):
+            types = sorted(e.value for e in n.value.elts)
+            setname = n.targets[0].id if isinstance(n.targets[0], ast.Name) else None
+
+    def tests_type(nodes):
+        for c in nodes:
+            for x in ast.walk(c):
+                if isinstance(x, ast.Compare) and any(isinstance(op, ast.In) for op in x.ops):
+                    for comp in x.comparators:
+                        if (isinstance(comp, ast.Name) and comp.id == setname) or isinstance(comp, ast.Set):
+                            return True
+        return False
+
+    branches = filtered = 0
+    for n in ast.walk(tree):
+        if isinstance(n, ast.ListComp):
+            for g in n.generators:
+                if isinstance(g.iter, ast.Name) and g.iter.id == "link_data":
+                    branches += 1
+                    filtered += 1 if tests_type(g.ifs) else 0
+        elif isinstance(n, ast.For) and isinstance(n.iter, ast.Name) and n.iter.id == "link_data":
+            branches += 1
+            filtered += 1 if tests_type(n.body) else 0
+    return dict(types=types, branches=branches, filtered=filtered)
+
+
 def gen_c01(wntr):
     out = [
         "-- GENERATED by harness/translate/rows_c01c02.py (runtime reflection of create_hydraulic_model on the zoo network). Do not edit.",
@@ -440,6 +486,14 @@ def gen_c01(wntr):
         out.append("end %s" % mode)
         out.append("")
         info[mode] = dict(rows=len(mbrows), vars=len(vs), params=len(ps), names=dict(vars=vs, params=ps, rows=[jn for jn, _ in mbrows]))
+    lf = read_links_for_node_filter()
+    out.append("/-- `WaterNetworkModel.get_links_for_node` (ast): usage TYPE strings that count as links; iterations over the node's usage records;")
+    out.append("how many of them filter the record by its type string (a source / control named like a link must not be taken for the link) -/")
+    out.append("def linksForNodeTypes : List String := " + _strlist(lf["types"]))
+    out.append("def linksForNodeBranches : Nat := %d" % lf["branches"])
+    out.append("def linksForNodeFilteredBranches : Nat := %d" % lf["filtered"])
+    out.append("")
+    info["links_for_node"] = lf
     out.append("end Wntr.Gen.RowsC01")
     return "\n".join(out) + "\n", info
 
